@@ -103,6 +103,12 @@ func mOp(i int) stackage.Operator {
 	if i == 8 {
 		return sliceOp{"=~", "ctx"} // an operator type Go cannot compare with ==
 	}
+	if i == 10 {
+		return zeroOp{} // round 14: user operators that are the zero value of their type
+	}
+	if i == 11 {
+		return enumOp(0)
+	}
 	return stackage.ComparisonOperator(i)
 }
 
@@ -462,6 +468,7 @@ func c04Trees(c *Ctx) []mnode {
 	conds := []mnode{
 		{T: "cond", Kw: "kw", Op: 1, Kids: []mnode{leaves[0]}}, {T: "cond", Kw: "n", Op: 6, Kids: []mnode{leaves[3]}}, {T: "cond", Kw: "LIST", Op: 7, Kids: []mnode{leaves[1]}},
 		{T: "cond", Kw: "outer", Op: 2, Kids: []mnode{{T: "cond", Kw: "inner", Op: 3, Kids: []mnode{leaves[0]}}}},
+		{T: "cond", Kw: "zero", Op: 10, Kids: []mnode{leaves[0]}}, {T: "cond", Kw: "enum0", Op: 11, Kids: []mnode{leaves[1]}},
 	}
 	lists := func(elems []mnode, maxW int) [][]mnode {
 		var out [][]mnode
